@@ -84,7 +84,7 @@ pub open spec fn rev_fold(w: World, factory: Seq<char>, ops: Seq<SwapOperation>,
     }
 }
 //%fn contracts/halo-router/src/contract.rs | - | simulate_swap_operations
-//%%rewrite #1 /for operation in operations\.into_iter\(\) \{/ => for operation in it: operations.into_iter() { ## name the loop's ghost iterator
+//%%rewrite #1 /for operation in (operations\.into_iter\(\)[^{]*?) \{/ => for operation in it: \1 { ## name the loop's ghost iterator
 //%%sig
     ensures
         /*[C12,C13 route-sim.composition]*/ r is Ok ==> deps.storage.config is Some && operations@.len() > 0
